@@ -22,24 +22,24 @@ theorem designator_ok (z : List Nat) (h : Spec.isUtcDesignator z) :
   rcases h with h | h | h | h
   · rcases z with _ | ⟨a, _ | ⟨b, r⟩⟩ <;> simp at h
     have hz := zoneChar_of_lower h (by omega)
-    refine ⟨by intro x hx; simp at hx; subst hx; exact hz, by simp, by simp, by simp [isUtcTimeZone, h], by simp [rfcOffset]⟩
+    refine ⟨by intro x hx; simp at hx; subst hx; exact hz, by simp, by simp, by simp [isUtcTimeZone, h, Gen.Date.utcSingle], by simp [rfcOffset]⟩
   · rcases z with _ | ⟨a, _ | ⟨b, _ | ⟨c, r⟩⟩⟩ <;> simp at h
     have hza := zoneChar_of_lower h.1 (by omega)
     have hzb := zoneChar_of_lower h.2 (by omega)
     refine ⟨by intro x hx; simp at hx; rcases hx with e | e <;> subst e <;> assumption, by simp, by simp,
-      by simp [isUtcTimeZone, h.1, h.2], by simp [rfcOffset]⟩
+      by simp [isUtcTimeZone, h.1, h.2, Gen.Date.utcSingle, Gen.Date.offsetZoneLen, Gen.Date.utcPair], by simp [rfcOffset]⟩
   · rcases z with _ | ⟨a, _ | ⟨b, _ | ⟨c, _ | ⟨d, r⟩⟩⟩⟩ <;> simp at h
     have hza := zoneChar_of_lower h.1 (by omega)
     have hzb := zoneChar_of_lower h.2.1 (by omega)
     have hzc := zoneChar_of_lower h.2.2 (by omega)
     refine ⟨by intro x hx; simp at hx; rcases hx with e | e | e <;> subst e <;> assumption, by simp, by simp,
-      by simp only [isUtcTimeZone, triplet, h.1, h.2.1, h.2.2]; simp [toLower], by simp [rfcOffset]⟩
+      by simp only [isUtcTimeZone, tripletMatches, triplet, Gen.Date.utcTriplets, List.any, h.1, h.2.1, h.2.2]; simp [toLower, Gen.Date.utcSingle, Gen.Date.offsetZoneLen], by simp [rfcOffset]⟩
   · rcases z with _ | ⟨a, _ | ⟨b, _ | ⟨c, _ | ⟨d, r⟩⟩⟩⟩ <;> simp at h
     have hza := zoneChar_of_lower h.1 (by omega)
     have hzb := zoneChar_of_lower h.2.1 (by omega)
     have hzc := zoneChar_of_lower h.2.2 (by omega)
     refine ⟨by intro x hx; simp at hx; rcases hx with e | e | e <;> subst e <;> assumption, by simp, by simp,
-      by simp only [isUtcTimeZone, triplet, h.1, h.2.1, h.2.2]; simp [toLower], by simp [rfcOffset]⟩
+      by simp only [isUtcTimeZone, tripletMatches, triplet, Gen.Date.utcTriplets, List.any, h.1, h.2.1, h.2.2]; simp [toLower, Gen.Date.utcSingle, Gen.Date.offsetZoneLen], by simp [rfcOffset]⟩
 
 theorem zoneChar_dig {n : Nat} (h : n < 10) : zoneChar (dig n) := by
   have := isDigit_dig h
@@ -67,10 +67,10 @@ theorem rfc_offset_ok (neg : Bool) (hh mm : Nat) (hhh : hh < 100) (hmm : mm < 10
     simp [Spec.offsetText, print2]
   rw [e]
   cases neg
-  · refine ⟨?_, by simp, by simp, by simp [isUtcTimeZone, toLower], ?_⟩
+  · refine ⟨?_, by simp, by simp, by simp [isUtcTimeZone, toLower, Gen.Date.utcSingle, Gen.Date.offsetZoneLen, Gen.Date.offsetSigns], ?_⟩
     · intro x hx; simp at hx; rcases hx with h | h | h | h | h <;> subst h <;> first | assumption | simp [zoneChar]
     · simp only [rfcOffset, Spec.offsetSecs, s1, s2]; simp; omega
-  · refine ⟨?_, by simp, by simp, by simp [isUtcTimeZone, toLower], ?_⟩
+  · refine ⟨?_, by simp, by simp, by simp [isUtcTimeZone, toLower, Gen.Date.utcSingle, Gen.Date.offsetZoneLen, Gen.Date.offsetSigns], ?_⟩
     · intro x hx; simp at hx; rcases hx with h | h | h | h | h <;> subst h <;> first | assumption | simp [zoneChar]
     · simp only [rfcOffset, Spec.offsetSecs, s1, s2]; simp; omega
 
@@ -112,28 +112,60 @@ theorem text_lengths (t : Int) (h0 : 0 ≤ t) (h1 : t ≤ 253402300799) (sep : N
 
 /-! ### epoch views -/
 
-theorem satMul_ok (a b : Nat) (h : a * b < u64) : satMul a b = a * b := by simp [satMul, h]
-theorem satAdd_ok (a b : Nat) (h : a + b < u64) : satAdd a b = a + b := by simp [satAdd, h]
+open AwsVerif.Gen.Math in
+theorem gmul (a b : Nat) (h : a * b < 18446744073709551616) : Overflow.aws_mul_u64_saturating a b = a * b := by
+  have h' : ¬ (a * b ≥ 18446744073709551616) := by omega
+  simp only [Overflow.aws_mul_u64_saturating, h', if_false]
+  exact Nat.mod_eq_of_lt h
 
-theorem convert_up (x k : Nat) (h : k * x < u64) : (timestampConvert x 1 k).1 = k * x := by
-  have e0 : x - x * 1 = 0 := by omega
+open AwsVerif.Gen.Math in
+theorem gadd (a b : Nat) (h : a + b < 18446744073709551616) : Overflow.aws_add_u64_saturating a b = a + b := by
+  have h' : ¬ (a + b ≥ 18446744073709551616) := by omega
+  simp only [Overflow.aws_add_u64_saturating, h', if_false]
+  exact Nat.mod_eq_of_lt h
+
+/-! the generated `aws_timestamp_convert` (clock.inl through gen/math_gen.py) on the three call shapes of date_time.c -/
+
+open AwsVerif.Gen.Math in
+theorem conv_up (x k : Nat) (hk : 0 < k) (h : k * x < u64) : convert x (1, k, false) = (k * x, 0) := by
   have e1 : x / 1 = x := by omega
-  simp only [timestampConvert, e1, e0]
-  rw [satMul_ok _ _ (by rw [Nat.mul_comm]; exact h), satMul_ok 0 k (by simp)]
-  rw [satAdd_ok _ _ (by simp; rw [Nat.mul_comm]; exact h)]
+  have e2 : (x + 18446744073709551616 - x * 1 % 18446744073709551616) % 18446744073709551616 = 0 := by omega
+  have c : ¬ ¬ (1 > 0 ∧ k > 0) := by omega
+  simp only [convert, Clock.aws_timestamp_convert, Clock.aws_timestamp_convert_u64, c, if_false, Bool.false_eq_true, e1, e2]
+  rw [gmul x k (by rw [Nat.mul_comm]; exact h), gmul 0 k (by simp), gadd _ _ (by simp; rw [Nat.mul_comm]; exact h)]
   simp [Nat.mul_comm]
 
-theorem convert_ms_ns (ms : Nat) (h : ms < 65536) : (timestampConvert ms 1000 1000000000).1 = ms * 1000000 := by
-  have hu : u64 = 18446744073709551616 := rfl
-  simp only [timestampConvert]
-  rw [satMul_ok _ _ (by omega), satMul_ok _ _ (by omega), satAdd_ok _ _ (by omega)]
-  omega
-
-theorem convert_down (ms : Nat) (h : ms < u64) : timestampConvert ms 1000 1 = (ms / 1000, ms % 1000) := by
-  have hu : u64 = 18446744073709551616 := rfl
-  simp only [timestampConvert]
-  rw [satMul_ok _ _ (by omega), satMul_ok _ _ (by omega), satAdd_ok _ _ (by omega)]
+open AwsVerif.Gen.Math in
+theorem conv_ms_ns (ms : Nat) (h : ms < 65536) : convert ms (1000, 1000000000, false) = (1000000 * ms, 0) := by
+  have e2 : (ms + 18446744073709551616 - ms / 1000 * 1000 % 18446744073709551616) % 18446744073709551616 = ms % 1000 := by omega
+  simp only [convert, Clock.aws_timestamp_convert, Clock.aws_timestamp_convert_u64, Bool.false_eq_true, if_false, e2]
+  simp only [show ¬ ¬ ((1000:Nat) > 0 ∧ (1000000000:Nat) > 0) by omega, if_false]
+  rw [gmul _ _ (by omega), gmul _ _ (by omega), gadd _ _ (by omega)]
   simp; omega
+
+open AwsVerif.Gen.Math in
+theorem conv_down (ms : Nat) (h : ms < u64) : convert ms (1000, 1, true) = (ms / 1000, ms % 1000) := by
+  have hu : u64 = 18446744073709551616 := rfl
+  have e2 : (ms + 18446744073709551616 - ms / 1000 * 1000 % 18446744073709551616) % 18446744073709551616 = ms % 1000 := by omega
+  simp only [convert, Clock.aws_timestamp_convert, Clock.aws_timestamp_convert_u64, e2]
+  simp only [show ¬ ¬ ((1000:Nat) > 0 ∧ (1:Nat) > 0) by omega, if_false, if_true, show (1:Nat) < 1000 by omega]
+  rw [gmul _ _ (by omega), gmul _ _ (by omega), gadd _ _ (by omega)]
+  simp
+
+/-! ### generated formatter dispatch and format strings against the closed forms -/
+
+/-- the six UTC formatter cases read `gmt_time` with "%a, %d %b %Y %H:%M:%S GMT", "%Y-%m-%dT%H:%M:%SZ",
+"%Y%m%dT%H%M%SZ" and their date-only forms; AUTO_DETECT has no case -/
+theorem formatTextGen_eq (tm : Tm) (f : Fmt) (short : Bool) : formatTextGen tm f short = formatText tm f short := by
+  cases f <;> cases short <;>
+    simp [formatTextGen, formatText, fmtIndex, strftime, strftimeConv, Gen.Date.utcStr, Gen.Date.utcShortStr,
+      Gen.Date.AWS_DATE_FORMAT_RFC822, Gen.Date.AWS_DATE_FORMAT_ISO_8601, Gen.Date.AWS_DATE_FORMAT_ISO_8601_BASIC,
+      Gen.Date.AWS_DATE_FORMAT_AUTO_DETECT, Gen.Date.rfc822MinusZ, Gen.Date.rfc822Short, Gen.Date.isoLong, Gen.Date.isoShort,
+      Gen.Date.isoBasicLong, Gen.Date.isoBasicShort, List.find?, fmtRfc822, fmtRfc822Short, fmtClock, fmtIso, fmtIsoBody,
+      fmtIsoBodySep, fmtIsoShort, fmtBasic, fmtBasicBody, fmtBasicBodySep, fmtBasicShort]
+
+/-- every month name the formatter emits is found by the (generated) compare chain with its own number -/
+theorem monthTable_ok : ∀ m : Fin 12, monthNumber (monthName (m.val : Int) ++ [32]) = some m.val := by decide
 
 theorem toU64_nonneg (x : Int) (h0 : 0 ≤ x) (h1 : x < 18446744073709551616) : toU64 x = x.toNat := by
   unfold toU64 u64; omega
